@@ -42,6 +42,12 @@ def _integrand(kind):
     if kind == "vec3":
         g1, g2 = F.GenzProductPeak([10.0, 10.0], [0.7, 0.2]), F.GenzOszillatory([3.0, 1.0], 0.25)
         return (lambda x: [g1.eval(x), g2.eval(x), 1.0 + x[0]]), np.array([g1.getAnalyticSolutionIntegral(A, B), g2.getAnalyticSolutionIntegral(A, B), 1.5])
+    if kind == "lin_off":          # a linear integrand (integrated exactly, every surplus / benefit exactly zero) against a reference the
+        # user rounded: the error stays above every small tolerance although no refinement candidate has a positive benefit
+        return (lambda x: [x[0] + 2.0 * x[1]]), np.array([1.501])
+    if kind == "zero_on_grid":     # vanishes exactly at every dyadic point up to level 3: the first evaluations see the zero function
+        g = lambda t: (8.0 * t - math.floor(8.0 * t)) * (1.0 - (8.0 * t - math.floor(8.0 * t)))
+        return (lambda x: [g(x[0]) + g(x[1])]), np.array([1.0 / 3.0])
     if kind == "peak_tiny":        # same integrand scaled by an exact power of two: a reference of tiny magnitude is still non-zero
         ev, ref = _integrand("peak")
         return (lambda x: [2.0 ** -32 * v for v in ev(x)]), ref * 2.0 ** -32
@@ -259,7 +265,7 @@ def main(ctx):
     # *_plot: do_plot=True (contour plot, refinement graph, combination scheme and sparse grid are drawn after every step: looking at
     # the run must not change it)
     strategies = ["dw", "dw_noreb", "es", "es_v1", "es_auto", "cell", "es_gl", "es_gl_recalc", "es_recalc", "dw_ep", "es_ep", "dw_plot", "es_plot", "cell_plot"]
-    kinds = ["peak", "vec", "zero", "disc", "peak_tiny", "vec_scaled"] if q else ["peak", "vec", "zero", "disc", "c0", "vec3", "peak_tiny", "vec_scaled"]
+    kinds = ["peak", "vec", "zero", "disc", "peak_tiny", "vec_scaled", "lin_off", "zero_on_grid"] if q else ["peak", "vec", "zero", "disc", "c0", "vec3", "peak_tiny", "vec_scaled", "lin_off", "zero_on_grid"]
     norms = [1, 2, "inf"]
     base = [{"config": {"strategy": s, "integrand": k, "norm": n, "tol": -1, "min_evaluations": 1, "max_evaluations": 90 if q else 150}}
             for s in strategies for k in kinds for n in norms]
